@@ -114,6 +114,9 @@ CIB = "orchestrate/obykeyset/channelinputbuffer.go"
 IDGEN = "output/shared/chunkidgen.go"
 
 MUTANTS += [
+    M("c04-r5-eexist-counts-as-saved", "C04", "C04.R5", COP, "\tif werr := util.WriteFileAt(op.maybeDir, chunkRef.ID, chunkRef.Data, 0o644); werr != nil {", "\tif werr := util.WriteFileAt(op.maybeDir, chunkRef.ID, chunkRef.Data, 0o644); werr != nil && !os.IsExist(werr) {", "a stale file of the same name (or EEXIST from an odd filesystem): the chunk is marked saved and its data released although nothing was written"),
+    M("c04-r5-write-error-shadowed", "C04", "C04.R5", FILES, "\twerr := writeAllToFD(fd, data)\n", "\tvar werr error\n\tif len(data) > 0 {\n\t\twerr := writeAllToFD(fd, data)\n\t\t_ = werr\n\t}\n", "any write error (disk full, EIO): the partial temp file is renamed to the chunk id"),
+    B("c04-r5-benign-inline-write-loop", "C04", FILES, "\twerr := writeAllToFD(fd, data)\n", "\tvar werr error\n\tfor rest := data; len(rest) > 0; {\n\t\tvar n int\n\t\tn, werr = unix.Write(fd, rest)\n\t\tif werr != nil {\n\t\t\tbreak\n\t\t}\n\t\tif n <= 0 {\n\t\t\twerr = io.ErrShortWrite\n\t\t\tbreak\n\t\t}\n\t\trest = rest[n:]\n\t}\n"),
     # ---------------- C05
     M("c05-r1-two-workers", "C05", "C05.R1", PIPE, "\t\tprocWorker.Start()\n", "\t\tprocWorker.Start()\n\t\tprocWorker.Start()\n", "two goroutines consume one pipeline channel: records reordered under load"),
     M("c05-r2-no-copy", "C05", "C05.R2", CIB, "\treusableLogBuffer := bsupport.CopyLogBuffer(pendingLogs)\n", "\treusableLogBuffer := pendingLogs\n\t_ = bsupport.CopyLogBuffer\n", "next records appended while the worker still reads the flushed slice"),
@@ -155,6 +158,8 @@ RELOADER = "run/reloader.go"
 MUTANTS += [
     M("c16-r6-orchestration-keys-never-assigned", "C16", "C16.R6", "run/config.go", "\torcKeys = keys\n\tstats.OrchestrationKeys = keys\n", "\tstats.OrchestrationKeys = keys\n", "a field listed in both orchestration keys and metricKeys: accepted, duplicate label panic at the first pipeline"),
     B("c16-r6-benign-direct-keys", "C16", "run/config.go", "\tif err := checkMetricKeys(conf, schema, orcKeys); err != nil {", "\tif err := checkMetricKeys(conf, schema, keys); err != nil {", more=[("run/config.go", "\tvar orcKeys []string\n", ""), ("run/config.go", "\torcKeys = keys\n", "")]),
+    M("c16-r7-single-input-errors-ignored", "C16", "C16.R7", "run/config.go", "\tif err = bsupport.VerifyInputConfigs(conf.Inputs, schema, \"inputs\"); err != nil {", "\tif err = bsupport.VerifyInputConfigs(conf.Inputs, schema, \"inputs\"); err != nil && len(conf.Inputs) > 1 {", "a configuration with exactly one (invalid) input: accepted, fails at launch"),
+    M("c16-r7-transform-error-shadowed", "C16", "C16.R7", "transform/tif/tif.go", "\tif err := c.Match.VerifyConfig(schema); err != nil {\n\t\treturn fmt.Errorf(\".match: %w\", err)\n\t}\n", "\tvar err error\n\tif len(c.Match) > 0 {\n\t\terr := c.Match.VerifyConfig(schema)\n\t\t_ = err\n\t}\n\tif err != nil {\n\t\treturn fmt.Errorf(\".match: %w\", err)\n\t}\n", "an `if` transform with an invalid matcher: accepted, panics when the pipeline is built"),
     # ---------------- C17
     M("c17-r1-revert-newsink-lock", "C17", "C17.R1", REL, "\tlockT := orc.downstreamMutex.RLock() // only read-lock since we assume clientNumber is unique and nobody else is accessing it\n\tdefer orc.downstreamMutex.RUnlock(lockT)\n\n\t// the downstream orchestrator must be accessed within the lock, or the new sink could belong to an orchestrator\n\t// which has been shut down by reloading in the meantime\n\tnewDownstream := orc.downstream.NewSink(clientAddress, clientNumber)\n",
       "\tnewDownstream := orc.downstream.NewSink(clientAddress, clientNumber)\n\n\tlockT := orc.downstreamMutex.RLock() // only read-lock since we assume clientNumber is unique and nobody else is accessing it\n\tdefer orc.downstreamMutex.RUnlock(lockT)\n", "SIGHUP between creating the sink and registering it: original defect D19"),
@@ -167,6 +172,7 @@ MUTANTS += [
     M("c17-r3-loader-swapped-early", "C17", "C17.R3", RELOADER, "\tif err := checkConfigCompatibility(\n", "\treloader.Loader = newLoader\n\tif err := checkConfigCompatibility(\n", "reload with an incompatible configuration: later reloads compare against the rejected one"),
     M("c17-r3-complete-despite-incompatible", "C17", "C17.R3", RELOADER, "\t\tnewLoader.Config, newLoader.PipelineArgs.Schema, newLoader.ConfigStats); err != nil {\n\t\treturn nil, err\n\t}", "\t\tnewLoader.Config, newLoader.PipelineArgs.Schema, newLoader.ConfigStats); err != nil {\n\t\treloader.logger.Warn(err)\n\t}", "reload with changed schema positions"),
     M("c17-r4-revert-close-order", "C17", "C17.R4", TCP, "\t\t\t// the connection is closed by connAborter at the end, after the sink\n", "\t\t\tconnAborter.Signal()\n", "client disconnects and reconnects while the old sink is still flushing: original defect D21 (also a double Signal)", more=[(TCP, "\tdefer connAborter.Signal()\n\n", "\n")]),
+    M("c17-r4-close-conn-on-peer-eof", "C17", "C17.R4", TCP, "\t\t\t// the connection is closed by connAborter at the end, after the sink\n", "\t\t\tconn.Close() //nolint:errcheck\n", "a new connection accepted between the peer-closed connection releasing its socket and its sink being closed: same client number, slot cleared under the new connection"),
     M("c17-r5-foreign-slot-write", "C17", "C17.R5", REL, "\torc.downstream.Shutdown()\n}\n", "\torc.downstream.Shutdown()\n\torc.downstreamSinks[0] = nil\n}\n", "a slot cleared behind the back of its connection"),
 ]
 
